@@ -85,7 +85,9 @@ CLAIMED = {
     text='spec/Codec.tla: per block the set of received ESIs and a reconstructed flag; a block completes at the first delivery '
          'after which AllSource or rank(A(K,S)) = L over GF(256) (TLC computes the rank from the RFC definitions). MC_Codec explores '
          'every arrival order/duplication/clone point of a small universe exhaustively. Every call of the real Decoder in generated '
-         'histories is validated as a step of that machine and its bytes compared with the original.',
+         'histories is validated as a step of that machine and its bytes compared with the original. Liveness under a fair channel '
+         '(EventuallyAnswers) is model-checked, and MC_Decode shows on the spec\'s own arithmetic that full rank implies the Gauss-Jordan '
+         'solution of the received system reproduces the source octets.',
     note='Trusted: TLC, frozen tables; exact rank for K\' <= 60 (quick) / 110 (thorough), learned-consistency mode above; packets '
          'are the real encoder\'s (their content is C04).',
     technique='TLC exhaustive model (MC_Codec) + TLC trace validation of real decoder histories against the Codec state machine',
@@ -170,7 +172,8 @@ CLAIMED = {
          '(Bounded, Bijection, RightPlanCached, Transparent) and prints every interleaving of three concurrent requests against a '
          'cache pre-filled to 63 and 64 plans; each of the ~2000 schedules is forced on real threads through the yield hook and map, '
          'FIFO and plan identities are compared after every critical section. Free-running 16-thread executions are logged under the '
-         'mutex and validated by TLC as behaviours of the same spec.',
+         'mutex and validated by TLC as behaviours of the same spec. Apalache shows the invariant inductive (any number of requests; 3 threads, '
+         'capacity <= 4). A rejection that breaks no property-level condition (e.g. another eviction order) is a MODEL-DEVIATION, not a violation.',
     note='Trusted: TLC; hook placement (yield immediately before lock(), event while the mutex is held). Forced schedules cover 3 '
          'threads / one request each on the real cache; larger mixes only free-running.',
     technique='TLC exhaustive interleaving model + TLC-generated schedules forced on real threads + TLC trace validation of concurrent logs',
